@@ -1623,6 +1623,10 @@ func c21Excluded(cs c21Case, d *c21PE) string {
 		switch d.arg {
 		case "A", "K", "k", "P", "E":
 			return "transform-not-compared" // @K @k @P are TODOs in param.go, @A embeds the @Q difference, @E is not modelled
+		case "a":
+			if d.name == "@" || d.name == "*" || d.idxKind == '@' || d.idxKind == '*' {
+				return "transform-not-compared" // "${s[@]@a}" of a scalar without attributes is no field at all in bash
+			}
 		}
 	}
 	if d.idxKind == 'e' && kind == 'i' {
@@ -1690,6 +1694,9 @@ func c21Excluded(cs c21Case, d *c21PE) string {
 				return "c22-nonws-ifs"
 			}
 		}
+		if isList && (d.kind != 'N' || d.excl) {
+			return "c22-nonws-ifs" // an operator may produce empty or delimiter-adjacent elements
+		}
 		if isList {
 			for _, e := range elems {
 				if e == "" {
@@ -1717,9 +1724,6 @@ func c21Excluded(cs c21Case, d *c21PE) string {
 	}
 	if kind == 'a' && d.idxKind == 'e' {
 		return "C21-assoc-negative-subscript"
-	}
-	if kind == 's' && d.idxKind == 'e' {
-		return "C21-scalar-negative-subscript"
 	}
 	if d.excl && d.names == 0 {
 		if d.idxKind == 'w' || d.idxKind == 'e' {
@@ -1753,7 +1757,7 @@ func c21Excluded(cs c21Case, d *c21PE) string {
 		return "C21-assoc-list-joined-count"
 	}
 	if d.kind == 'S' && isList && kind == 'a' {
-		return "C21-assoc-list-joined-slice"
+		return "assoc-slice-unspecified" // bash slices an associative array in hash order
 	}
 	if d.kind == 'S' && d.hasLen && d.ln < 0 {
 		if isList && listVar {
